@@ -168,6 +168,21 @@ func c06Next(s *comp.VerifMsiSnapshot, mem []int8, base int32) []int8 {
 	return out
 }
 
+// c06Cur (work package COH): the CURRENT VALUE of the line at `base` in a snapshot — the L1 copy of the
+// core that holds it Modified, else the next level (Proofs.MsiCoherence.cur on the abstract model).
+func c06Cur(s *comp.VerifMsiSnapshot, mem []int8, base int32) []int8 {
+	for _, e := range s.States {
+		if e.Addr == base && e.State == 2 && e.Core >= 0 && e.Core < len(s.Cores) {
+			for _, l := range s.Cores[e.Core].L1 {
+				if l.Base == base {
+					return l.Data
+				}
+			}
+		}
+	}
+	return c06Next(s, mem, base)
+}
+
 // c06RenderL3 (MVP-8 only; work package L3): the sections `l3=` and `l3d=` of a snapshot line —
 // every L3 line, most recently used first, as base:size:flag:data:mem with flag d (msi.l3Write set
 // for the line's base) or c, `mem` = the memory bytes of the line's range inside memory (`~` when
@@ -525,6 +540,8 @@ type c06Run struct {
 	prevL3   string // the l3= / l3d= sections of prev ("" when the variant has no L3)
 	lastL3   string // the sections last written to a line (a line that repeats them says l3=^)
 	prevAux  string // Go's verdict on Model.L3.Clean for prev: ok | stale
+	prevVals []string // rig: reads that completed while prev was the snapshot: core:addr:data (work package COH)
+	prevValV string   // Go's verdict on them: every returned value is the current value of its line (ok | bad)
 	prevOut  string
 	prevAt   int
 	rep      int
@@ -543,7 +560,7 @@ func (r *c06Run) flushPrev() {
 	if r.prev == "" {
 		return
 	}
-	if r.distinct <= r.maxEmit || r.prevOut != "ok" || r.prevAux == "stale" {
+	if r.distinct <= r.maxEmit || r.prevOut != "ok" || r.prevAux == "stale" || r.prevValV == "bad" {
 		body := r.prev
 		if r.prevL3 != "" {
 			if r.prevL3 == r.lastL3 {
@@ -554,9 +571,37 @@ func (r *c06Run) flushPrev() {
 			}
 			body += " ; l3v=" + r.prevAux
 		}
+		if len(r.prevVals) > 0 {
+			body += " ; rv=" + strings.Join(r.prevVals, ",") + " ; rvv=" + r.prevValV
+		}
 		r.lines = append(r.lines, c06Line{fmt.Sprintf("S %d %d ; %s", r.prevAt, r.rep, body), r.prevOut})
 	}
 	r.prev = ""
+	r.prevVals, r.prevValV = nil, ""
+}
+
+// value (rig; work package COH): a read completed in this cycle and returned `data`. It is attached to the
+// snapshot taken at the tick of the cycle (the pending S line), with Go's verdict: the returned bytes are the
+// current value (c06Cur) of the line at that tick.
+func (r *c06Run) value(core int, addr int32, data []int8, s *comp.VerifMsiSnapshot, mem []int8) {
+	if r.prev == "" || len(data) == 0 || s.L1LineSize <= 0 || addr < 0 {
+		return
+	}
+	lsz := int32(s.L1LineSize)
+	base := addr - addr%lsz
+	off := int(addr - base)
+	if off+len(data) > int(lsz) {
+		return
+	}
+	cur := c06Cur(s, mem, base)
+	ok := off+len(data) <= len(cur) && c06Eq(cur[off:off+len(data)], data)
+	r.prevVals = append(r.prevVals, fmt.Sprintf("%d:%d:%s", core, addr, c06Data(data)))
+	if r.prevValV == "" {
+		r.prevValV = "ok"
+	}
+	if !ok {
+		r.prevValV = "bad"
+	}
 }
 
 func (r *c06Run) observe(cycle int, s comp.VerifMsiSnapshot, mem []int8) {
@@ -1031,7 +1076,8 @@ func c06RunRig(runID, caseID int, vname string, cores int, c c06RigCase, maxEmit
 		}()
 		for {
 			cycle++
-			run.observe(cycle, rig.Snapshot(), mem)
+			snap := rig.Snapshot()
+			run.observe(cycle, snap, mem)
 			busy := false
 			for k := 0; k < cores; k++ {
 				if len(queues[k]) > 0 || !rig.Idle(k) {
@@ -1071,7 +1117,11 @@ func c06RunRig(runID, caseID int, vname string, cores int, c c06RigCase, maxEmit
 					for i := range addrs {
 						addrs[i] = o.Addr + int32(i)
 					}
-					_, done = rig.Read(k, cycle, addrs)
+					var got []int8
+					got, done = rig.Read(k, cycle, addrs)
+					if done {
+						run.value(k, o.Addr, got, &snap, mem)
+					}
 				case "w":
 					addrs := make([]int32, o.Width)
 					data := make([]int8, o.Width)
